@@ -360,8 +360,11 @@ def check(prop: str, tier: str) -> int:
         "wall_s": round(wall, 2),
         "violations": nviol,
     }
-    os.makedirs(os.path.join(ROOT, "evidence"), exist_ok=True)
-    with open(os.path.join(ROOT, "evidence", f"{prop}.json"), "w", encoding="utf-8") as fh:
+    # PESTVERIF_EVIDENCE_DIR: scratch runs against patched worktrees (tools_mutant.sh) must not overwrite the
+    # evidence of the unchanged tree
+    evdir = os.environ.get("PESTVERIF_EVIDENCE_DIR") or os.path.join(ROOT, "evidence")
+    os.makedirs(evdir, exist_ok=True)
+    with open(os.path.join(evdir, f"{prop}.json"), "w", encoding="utf-8") as fh:
         json.dump(evidence, fh, indent=1, ensure_ascii=True, default=repr)
         fh.write("\n")
 
